@@ -3465,6 +3465,11 @@ class TensorDict(TensorDictBase):
     ) -> T:
         if inplace and self.is_locked:
             raise RuntimeError(_LOCK_ERROR)
+        if inplace and len(keys):
+            # the nested tensordicts are pruned in place one after the other: a key that cannot
+            # be selected (missing, or running through a tensor) must be noticed before the
+            # first of them is touched, so that a refused call changes nothing
+            self._select(*keys, inplace=False, strict=strict, set_shared=set_shared)
 
         source = {}
         if len(keys):
